@@ -349,3 +349,33 @@ Proof.
   eexists; split; [reflexivity|].
   rewrite endian_length, endian_invol. apply canonical_index_to_input_spec.
 Qed.
+
+(* the constructors: PyFunction(func, n) asks func([False]*n) for the output size *)
+Lemma py_make_computes func f n m : arity_ok f n m -> (forall x, length x = n -> func x = Ok (f x)) ->
+  exists p, py_make func n None = Ok p /\ py_computes p f n m.
+Proof.
+  intros Har Hf. unfold py_make. rewrite Hf by apply repeat_length. simpl.
+  eexists; split; [reflexivity|]. repeat split; simpl; [apply Har, repeat_length|exact Hf].
+Qed.
+
+Lemma from_int_unary_sizes func in_len out_len big_endian :
+  exists p, from_int_unary_func func in_len out_len big_endian = Ok p /\ py_n p = in_len /\ py_m p = out_len
+            /\ py_func p = int_unary_callable func in_len out_len big_endian.
+Proof.
+  unfold from_int_unary_func, py_make.
+  destruct (int_unary_bit_order func in_len out_len big_endian (repeat false in_len) (repeat_length _ _))
+    as (r & Hr & Hl & _).
+  rewrite Hr. simpl. eexists; split; [reflexivity|]. repeat split. exact Hl.
+Qed.
+
+Lemma from_int_binary_sizes func in_len out_len big_endian :
+  exists p, from_int_binary_func func in_len out_len big_endian = Ok p /\ py_n p = 2 * in_len /\ py_m p = out_len
+            /\ py_func p = int_binary_callable func in_len out_len big_endian.
+Proof.
+  unfold from_int_binary_func, py_make.
+  destruct (int_binary_bit_order func in_len out_len big_endian (repeat false in_len) (repeat false in_len)
+              (repeat_length _ _) (repeat_length _ _)) as (r & Hr & Hl & _).
+  replace (repeat false (2 * in_len)) with (repeat false in_len ++ repeat false in_len)
+    by (rewrite <- repeat_app; f_equal; lia).
+  rewrite Hr. simpl. eexists; split; [reflexivity|]. repeat split. exact Hl.
+Qed.
